@@ -98,7 +98,12 @@ pub open spec fn docs_wst(s: Seq<DocV>) -> bool { forall|i: int| 0 <= i < s.len(
 pub proof fn lemma_lw_empty()
     ensures items_w(Seq::<ItemV>::empty()) =~= Seq::<Seq<char>>::empty(), items_wst(Seq::<ItemV>::empty()),
         docs_w(Seq::<DocV>::empty()) =~= Seq::<Seq<char>>::empty(), docs_wst(Seq::<DocV>::empty()),
-{ reveal_with_fuel(items_w, 1); reveal(items_wst); reveal_with_fuel(docs_w, 1); reveal(docs_wst); }
+        forall|s: Seq<DocV>| s.len() == 0 ==> #[trigger] docs_w(s) == Seq::<Seq<char>>::empty(),
+        forall|s: Seq<DocV>| s.len() == 0 ==> #[trigger] docs_wst(s),
+{
+    reveal_with_fuel(items_w, 1); reveal(items_wst); reveal_with_fuel(docs_w, 1); reveal(docs_wst);
+    assert forall|s: Seq<DocV>| s.len() == 0 implies #[trigger] docs_w(s) == Seq::<Seq<char>>::empty() by { assert(s =~= Seq::<DocV>::empty()); }
+}
 pub proof fn lemma_items_w_push(s: Seq<ItemV>, it: ItemV)
     ensures items_w(s.push(it)) == items_w(s) + item_words(it), items_wst(s.push(it)) == (items_wst(s) && item_wst(it)),
 {
